@@ -11,6 +11,12 @@
 //!   `run <self> <ev>...`   ev = `s:<id>.<addr>.<dc>,...` (a snapshot, `s:` = empty) | `sub` | `rd`
 //!                          exactly one `sub`; no `rd` before it
 //!   `diff <self> s:<prev> s:<new>`   the change published for `new` right after `prev`
+//!   `glue <self> <ev>...`            ev = snapshot | `sub`: the store extension's own membership glue
+//!                          (`watch_membership_changes` of datacake-eventual-consistency) is started
+//!                          at `sub` on the node handle's stream and forwards to the REAL task
+//!                          distributor and the REAL repair poller; at the end one mutation is queued
+//!                          and every peer holds one document of its own: `recv=[..]` = addresses the
+//!                          distributor's batch reached, `polled=[..]` = peers the poller pulled from
 //!   `dist <self> s:.. s:.. ...`      every published change is handed, in order, to the real task
 //!                          distributor of datacake-eventual-consistency (the consumer of the
 //!                          events), then one mutation is queued: which addresses receive the
@@ -488,6 +494,218 @@ fn do_dist(w: &mut CaseWriter, self_id: u8, snaps: &[Snapshot]) {
     }
 }
 
+// ------------------------------------------------------ the consumers behind the store's own glue
+
+/// Runs the store extension's membership glue on the node handle's stream, feeding the real task
+/// distributor and the real repair poller.  Returns (addresses reached by the distributor's
+/// batch, addresses the poller pulled a document from).
+async fn run_glue(self_id: u8, evs: &[Ev]) -> Result<(Vec<u16>, Vec<u16>), String> {
+    use std::sync::Arc;
+    use std::time::Duration;
+
+    use datacake_crdt::HLCTimestamp;
+    use datacake_eventual_consistency::test_utils::MemStore;
+    use datacake_eventual_consistency::verif::{
+        run_membership_glue,
+        start_distributor,
+        start_poller,
+        ConsistencyService,
+        KeyspaceGroup,
+        Mutation,
+        ReplicationService,
+    };
+    use datacake_eventual_consistency::{Document, Storage};
+    use datacake_rpc::Server;
+
+    const KS: &str = "ks";
+    let self_addr = addr_of(0xffff);
+    let network = RpcNetwork::default();
+    let statistics = ClusterStatistics::default();
+    let selector = start_node_selector(self_addr, Cow::Borrowed("dc0"), DCAwareSelector).await;
+    let (tx, rx) = watch::channel(MembershipChange::default());
+    let mut tx = Some(tx);
+    let mut probe = rx.clone();
+    let clock = Clock::new(self_id);
+    let handle = make_handle(
+        ClusterMember::new(self_id, self_addr, "dc0".to_string()),
+        clock.clone(),
+        network.clone(),
+        selector.clone(),
+        statistics.clone(),
+        rx,
+    );
+    let local_store = Arc::new(MemStore::default());
+    let local_group = KeyspaceGroup::new(local_store.clone(), clock.clone()).await;
+    let distributor = start_distributor::<MemStore>(clock.clone(), network.clone(), self_id, self_addr).await;
+    let poller = start_poller(local_group.clone(), network.clone(), Duration::from_secs(2)).await;
+
+    // one in-process node behind every address that ever appears; each holds one document of its
+    // own (id = 0x100 + address) that the local node lacks
+    let mut addrs: BTreeSet<u16> = BTreeSet::new();
+    for e in evs {
+        if let Ev::Snap(s) = e {
+            for (i, a, _) in s {
+                if *i != self_id {
+                    addrs.insert(*a);
+                }
+            }
+        }
+    }
+    let mut peers: Vec<(u16, Arc<MemStore>, Server)> = Vec::new();
+    for (n, a) in addrs.iter().enumerate() {
+        datacake_rpc::verif::unregister_local_server(addr_of(*a));
+        let store = Arc::new(MemStore::default());
+        let pclock = Clock::new(100 + n as u8);
+        let group = KeyspaceGroup::new(store.clone(), pclock.clone()).await;
+        let ks = group.get_or_create_keyspace(KS).await;
+        let doc = Document::new(0x100 + *a as u64, pclock.get_time().await, vec![9]);
+        let _ = ks
+            .send(datacake_eventual_consistency::verif::Set::<MemStore> { source: 0, doc, ctx: None, _marker: std::marker::PhantomData })
+            .await;
+        let server = Server::verif_local(addr_of(*a));
+        server.add_service(ConsistencyService::new(group.clone(), RpcNetwork::default()));
+        server.add_service(ReplicationService::new(group));
+        peers.push((*a, store, server));
+    }
+
+    let mut snap_tx: Option<watch::Sender<NodeMembership>> = None;
+    let mut glue: Option<tokio::task::JoinHandle<()>> = None;
+    for e in evs {
+        match e {
+            Ev::Snap(s) => {
+                let m = to_membership(s);
+                match &snap_tx {
+                    None => {
+                        let (stx, srx) = watch::channel(m);
+                        snap_tx = Some(stx);
+                        tokio::spawn(run_membership_watcher(
+                            self_id,
+                            network.clone(),
+                            selector.clone(),
+                            statistics.clone(),
+                            WatchStream::new(srx),
+                            tx.take().unwrap(),
+                        ));
+                    },
+                    Some(stx) => {
+                        let _ = stx.send(m);
+                    },
+                }
+                let mut n = 0;
+                loop {
+                    tokio::task::yield_now().await;
+                    if probe.has_changed().unwrap_or(false) {
+                        probe.borrow_and_update();
+                        break;
+                    }
+                    n += 1;
+                    if n > 400 {
+                        return Err("no publication after a snapshot".into());
+                    }
+                }
+                // the glue (if running) reads the change before the next one is published
+                for _ in 0..8 {
+                    tokio::task::yield_now().await;
+                }
+            },
+            Ev::Sub => {
+                glue = Some(tokio::spawn(run_membership_glue(distributor.clone(), poller.clone(), handle.clone())));
+                for _ in 0..8 {
+                    tokio::task::yield_now().await;
+                }
+            },
+            Ev::Read => {},
+        }
+    }
+    let doc = Document::new(7, HLCTimestamp::from_u64(clock.get_time().await.as_u64()), vec![1, 2, 3]);
+    distributor.mutation(Mutation::Put { keyspace: Cow::Borrowed(KS), doc });
+    // the distributor's interval (1 s) and two repair intervals (2 s each, after the initial wait)
+    tokio::time::sleep(Duration::from_millis(6500)).await;
+    for _ in 0..50 {
+        tokio::task::yield_now().await;
+    }
+    let mut recv = Vec::new();
+    let mut polled = Vec::new();
+    for (a, store, _) in &peers {
+        if store.get(KS, 7).await.ok().flatten().is_some() {
+            recv.push(*a);
+        }
+        if local_store.get(KS, 0x100 + *a as u64).await.ok().flatten().is_some() {
+            polled.push(*a);
+        }
+    }
+    distributor.kill();
+    poller.kill();
+    if let Some(g) = glue {
+        g.abort();
+    }
+    for (a, _, server) in peers {
+        server.shutdown();
+        datacake_rpc::verif::unregister_local_server(addr_of(a));
+    }
+    drop(snap_tx);
+    Ok((recv, polled))
+}
+
+fn do_glue(w: &mut CaseWriter, self_id: u8, evs: &[Ev]) {
+    let mut case = format!("glue {:x}", self_id);
+    for e in evs {
+        case.push(' ');
+        match e {
+            Ev::Snap(sn) => case.push_str(&show_snapshot(sn)),
+            Ev::Sub => case.push_str("sub"),
+            Ev::Read => case.push_str("rd"),
+        }
+    }
+    if evs.iter().filter(|e| **e == Ev::Sub).count() != 1 {
+        w.case(&case, "?bad-case");
+        return;
+    }
+    let rt = tokio::runtime::Builder::new_current_thread().enable_all().start_paused(true).build().unwrap();
+    let out = rt.block_on(run_glue(self_id, evs));
+    drop(rt);
+    let show = |v: &[u16]| {
+        let p: Vec<String> = v.iter().map(|a| format!("{:x}", a)).collect();
+        format!("[{}]", p.join(","))
+    };
+    match out {
+        Err(e) => {
+            w.case(&case, "stuck");
+            w.fail("watcher-does-not-publish", &case, &e);
+        },
+        Ok((recv, polled)) => {
+            w.case(&case, &format!("recv={} polled={}", show(&recv), show(&polled)));
+            w.stats.hit("glue_cases");
+            // Oracle: both consumers address exactly the live peers of the last snapshot - unless
+            // the history is in the known class "late subscription" (more than one publication
+            // before the glue subscribed: the watch channel kept only the latest)
+            let pre = evs.iter().take_while(|e| **e != Ev::Sub).filter(|e| matches!(e, Ev::Snap(_))).count();
+            let late = pre >= 2;
+            let mut want: Vec<u16> = expected_live(self_id, evs).values().map(|a| num_of_addr(a)).map(|s| u16::from_str_radix(&s, 16).unwrap_or(0)).collect();
+            want.sort();
+            want.dedup();
+            if !late {
+                if recv != want {
+                    w.fail(
+                        "consumer-does-not-hold-the-live-peers",
+                        &case,
+                        &format!("the distributor's batch reached {} but the live peers are {}", show(&recv), show(&want)),
+                    );
+                }
+                if polled != want {
+                    w.fail(
+                        "consumer-does-not-hold-the-live-peers",
+                        &case,
+                        &format!("the repair poller pulled from {} but the live peers are {}", show(&polled), show(&want)),
+                    );
+                }
+            } else {
+                w.stats.hit("glue_late_subscription");
+            }
+        },
+    }
+}
+
 fn do_diff(rt: &tokio::runtime::Runtime, w: &mut CaseWriter, self_id: u8, prev: &Snapshot, new: &Snapshot) {
     let case = format!("diff {:x} {} {}", self_id, show_snapshot(prev), show_snapshot(new));
     // the watcher is started on `prev`, then handed `new`; a receiver that looks at the channel
@@ -747,6 +965,7 @@ fn main() {
             }
             match parse_case(line) {
                 Some((kind, self_id, evs)) if kind == "run" => do_run(&rt, &mut w, self_id, &evs),
+                Some((kind, self_id, evs)) if kind == "glue" => do_glue(&mut w, self_id, &evs),
                 Some((kind, self_id, evs)) if kind == "dist" => {
                     let snaps: Vec<Snapshot> = evs
                         .iter()
@@ -833,6 +1052,36 @@ fn main() {
         }
     }
     w.stats.add("dist_sequences", ndist);
+    //    E: the store's own glue in front of the real distributor and the real repair poller: the
+    //       glue subscribes before any publication or after exactly one (more is the known class
+    //       "late subscription"), then every snapshot sequence of length <= 2 over 2 ids x 2
+    //       addresses; plus one long flapping history (many changes within one repair interval)
+    let mut nglue = 0u64;
+    for first in &uni2 {
+        for a in &uni2 {
+            for b in &uni2 {
+                if (nglue % 3 != 0) && !args.thorough() {
+                    nglue += 1;
+                    continue;
+                }
+                do_glue(&mut w, 0, &[Ev::Sub, Ev::Snap(first.clone()), Ev::Snap(a.clone()), Ev::Snap(b.clone())]);
+                do_glue(&mut w, 0, &[Ev::Snap(first.clone()), Ev::Sub, Ev::Snap(a.clone()), Ev::Snap(b.clone())]);
+                nglue += 1;
+            }
+        }
+    }
+    {
+        // node 2 flaps a hundred times, node 1 joins at the very end
+        let with2: Snapshot = vec![me, (2, 0xb, 0)];
+        let without: Snapshot = vec![me];
+        let mut evs = vec![Ev::Sub];
+        for i in 0..100 {
+            evs.push(Ev::Snap(if i % 2 == 0 { with2.clone() } else { without.clone() }));
+        }
+        evs.push(Ev::Snap(vec![me, (1, 0xa, 1)]));
+        do_glue(&mut w, 0, &evs);
+    }
+    w.stats.add("glue_sequences", nglue);
     let exhaustive_cases = w.n;
 
     // 3. random longer histories (joins, leaves, address and data-centre changes, rejoin,
